@@ -1547,6 +1547,75 @@ theorem c05_agg_complete_round_delivered (k : Nat) (hk : k ≠ 0) (as : List Act
   have := h.small (by rw [hn]; exact hk)
   rw [hn] at this; exact this
 
+/-- no lost wake-up: a reader that sleeps while messages are queued has its token -/
+def Wake (s : St) : Prop := s.queue ≠ [] → (s.token = true ∨ s.pc ≠ .waiting)
+
+theorem wake_step (s s' : St) (a : Act) (h : Wake s) (hs : step s a = some s') : Wake s' := by
+  unfold Wake at *
+  cases a with
+  | accept x =>
+    simp only [step] at hs
+    split at hs <;> simp at hs <;> subst hs
+    · exact h
+    · intro _; exact Or.inl rfl
+  | close => simp [step] at hs; subst hs; intro _; exact Or.inl rfl
+  | reader =>
+    simp only [step] at hs
+    split at hs
+    · rename_i hpc0
+      split at hs
+      · simp at hs; subst hs; intro _; exact Or.inr (by simp)
+      · split at hs
+        · rename_i hq
+          simp at hs; subst hs; intro hne; exact absurd hq hne
+        · split at hs
+          · simp at hs; subst hs; intro _; exact Or.inr (by simp)
+          · split at hs <;> simp at hs <;> subst hs <;> intro _
+            · exact Or.inr (by simp)
+            · exact Or.inr (by simp [hpc0])
+    · simp at hs; subst hs; intro _; exact Or.inr (by simp)
+    · split at hs <;> simp at hs; subst hs; intro _; exact Or.inr (by simp)
+    · simp at hs
+
+theorem wake_run (as : List Act) (s : St) (h : Wake s) : Wake (run s as) := by
+  induction as generalizing s with
+  | nil => exact h
+  | cons a as ih =>
+    simp only [run]
+    split
+    · exact ih _ (wake_step _ _ _ h ‹_›)
+    · exact ih _ h
+
+/-- **liveness at quiescence**: when the reader sleeps without a token (no step of it is enabled) nothing accepted
+is left in the queue and no handler is running — so, by `c05_agg_order`, everything accepted was either given to a
+handler in acceptance order or sits in the buffer, which holds less than a full round. -/
+theorem c05_agg_quiescent_all_taken (k : Nat) (as : List Act) :
+    let s := run { nch := k } as
+    s.pc = .waiting → s.token = false →
+      s.queue = [] ∧ s.started = s.finished ∧ aggs s.given ++ s.buf = aggs s.accepted ∧
+      directs s.given = directs s.accepted ∧ (k ≠ 0 → s.buf.length < k) := by
+  intro s hp ht
+  have h : Inv s := inv_run as _ (inv_init k)
+  have hw : Wake s := wake_run as _ (by intro hq; simp at hq)
+  have hq : s.queue = [] := by
+    apply Classical.byContradiction
+    intro hne
+    rcases hw hne with h1 | h1
+    · rw [ht] at h1; exact absurd h1 (by decide)
+    · exact h1 hp
+  have hacc : s.accepted = s.popped := by rw [h.order, hq]; simp
+  refine ⟨hq, ?_, ?_, ?_, ?_⟩
+  · have := h.serial; simpa [cur, hp] using this
+  · rw [hacc]; exact h.aggf
+  · rw [hacc]; exact h.dirf
+  · intro hk; exact c05_agg_complete_round_delivered k hk as
+
+/-- non-vacuity: three messages of a two-children node, everything taken, one in the buffer, the reader asleep -/
+example :
+    let s := run { nch := 2 } [.accept ⟨true, some 0, 1⟩, .accept ⟨true, some 1, 2⟩, .accept ⟨true, some 1, 3⟩,
+      .reader, .reader, .reader, .reader, .reader, .reader, .reader]
+    s.pc = .waiting ∧ s.token = false ∧ s.buf.map (·.m) = [3] ∧ s.started = [(true, [1, 2])] := by decide
+
 /-- non-vacuity: two children, the second answers first, then a fast first child — batches [0 1] and [2 3] in the
 order of acceptance; a message from the parent in between is dispatched at once -/
 example :
